@@ -45,7 +45,7 @@ NoErr(r) == r.err = ""
 NSeg(r) == Len(r.segs)
 ObsV(o) == FxObs(o)
 SmUlp == Z(FALSE, <<1>>)                            \* 10^-12: the rounding of the 12-digit encoding of an observed float
-SmBivarMax == 80                                    \* biweight midvariance is compared with its formula for n <= 80 (TLC cost)
+SmBivarMax == 400                                   \* biweight midvariance is compared with its formula up to 400 bins
 
 (* TLC evaluates a function constructor lazily, element by element and again at every application; Force turns   *)
 (* it into a stored tuple (each element evaluated once)                                                            *)
@@ -208,6 +208,14 @@ Clauses(op) ==
                             "bt_bh_exact", "bt_hits_exactly_below_alpha", "bt_hits_by_table"}
       [] op = "bh" -> {"bh_noerr", "bh_exact", "bh_order"}
       [] OTHER -> {}
+
+(* the clauses that say something about THIS record: a statistic's clause applies when the statistic was requested  *)
+(* (so that the evidence counts real evaluations, not vacuous ones)                                                 *)
+StatOfClause == [sm_mean |-> "mean", sm_median |-> "median", sm_mode_is_bin_value |-> "mode", sm_pttest_range |-> "p_ttest",
+                 sm_stdev |-> "stdev", sm_mad |-> "mad", sm_mse |-> "mse", sm_iqr |-> "iqr", sm_bivar |-> "bivar",
+                 sm_sem |-> "sem", sm_pi |-> "pi", sm_pi_brackets_median |-> "pi", sm_ci_order_range |-> "ci",
+                 sm_ci_reproducible |-> "ci"]
+ClausesOf(r) == {c \in Clauses(r.op) : c \in DOMAIN StatOfClause => Req(r, StatOfClause[c])}
 
 Holds(c, r) ==
     CASE c \in {"sm_noerr", "bt_noerr", "bh_noerr"} -> NoErr(r)
@@ -400,9 +408,9 @@ SmNaN == [nan |-> TRUE, val |-> ZZero]
 (* descriptives.biweight_midvariance: initial = biweight_location(a); MAD fallback iff the kept u sum to exactly 0 *)
 BivarCode(a) == LET M == BiweightLocation(a)  b == BivarAt(a, M, 9) IN
                 IF ZIsZero(b[3]) THEN BivarFallback(a, M) ELSE b[2]
-(* descriptives.mean_squared_error after the fix ("MSE is calculated from zero"; no single-value shortcut) ...      *)
+(* descriptives.mean_squared_error after fix d7371cf ("MSE is calculated from zero"; no single-value shortcut) ...  *)
 MseCode(d) == MseFromZero(d)
-(* ... and before it: on_array(0) answers 0 for one value, and `initial = a.mean()` makes it the variance          *)
+(* ... and before it: on_array(0) answered 0 for one value, and `initial = a.mean()` made it the variance           *)
 MseCodeOld(d) == IF Len(d) = 1 THEN ZZero ELSE MseFromMean(d)
 StatCode(name, a, d) ==
     LET n == Len(a) IN
@@ -497,11 +505,14 @@ Drift(r) ==
          [] OTHER -> FALSE
 
 (* ================================================================= known findings ============ *)
-(* MseFromMean: mean_squared_error(initial=None) subtracts the mean (and answers 0 for a single value), so `mse`    *)
-(* is the variance of the deviations instead of their mean square.  Affected: some requested-mse segment whose       *)
-(* deviations do not sum to zero.                                                                                   *)
-(* NoBinInsideASegment: residuals() answers pd.Series([]) (dtype object) when no bin lies inside a segment (or the   *)
-(* bin table is empty), and z_prob then fails in scipy with a TypeError instead of do_bintest returning no bins.     *)
+(* Both are repaired in /repo (fixed: entries in known_findings.json); the predicates stay as the characterisation  *)
+(* of the affected inputs.                                                                                          *)
+(* MseFromMean (fixed by d7371cf): mean_squared_error(initial=None) subtracted the mean (and answered 0 for a single *)
+(* value), so `mse` was the variance of the deviations instead of their mean square.  Affected: some requested-mse   *)
+(* segment whose deviations do not sum to zero.                                                                     *)
+(* NoBinInsideASegment (fixed by 3f208b0): residuals() answered pd.Series([]) (dtype object) when no bin lies inside *)
+(* a segment (or the bin table is empty), and z_prob then failed in scipy with a TypeError instead of do_bintest     *)
+(* returning no bins.                                                                                               *)
 KnownTriggers == {"MseFromMean", "NoBinInsideASegment"}
 TriggerHolds(t, r) ==
     CASE t = "MseFromMean" ->
